@@ -135,6 +135,9 @@ func runKernels(prop, tier, solver string, seed int) (*eng.Evidence, int) {
 		if r.Vacuous {
 			inconclusive = append(inconclusive, fmt.Sprintf("kernel %q: a reachability witness is unsatisfiable (vacuous harness)", r.Spec))
 		}
+		if r.Disch != r.Oblig && len(r.Failed) == 0 && !r.Inconcl {
+			inconclusive = append(inconclusive, fmt.Sprintf("kernel %q: only %d of %d obligations discharged", r.Spec, r.Disch, r.Oblig))
+		}
 		for j := range r.Failed {
 			cex := &r.Failed[j]
 			if cex.Assertion == "unwinding / pool bounds" {
